@@ -210,6 +210,35 @@ func (ex *Exec) initIntrinsics() {
 		}
 		return res
 	}
+	// strings.Fields / strings.Join / strings.Builder use unsafe tricks (noescape, unsafe.String) the
+	// interpreter does not model; on concrete arguments they are evaluated natively (pure functions).
+	in["strings.Fields"] = func(ex *Exec, st *State, args []Value, site ssa.CallInstruction) Value {
+		s := args[0].(StrV)
+		if !s.Conc {
+			unsupported("strings.Fields on a symbolic string")
+		}
+		var vals []Value
+		for _, f := range strings.Fields(s.S) {
+			vals = append(vals, conStr(f))
+		}
+		return st.sliceFromValues(types.Typ[types.String], vals)
+	}
+	in["strings.Join"] = func(ex *Exec, st *State, args []Value, site ssa.CallInstruction) Value {
+		sl := args[0].(SliceV)
+		sep := args[1].(StrV)
+		if !sl.Len.IsConst() || !sep.Conc {
+			unsupported("strings.Join with symbolic length or separator")
+		}
+		var parts []string
+		for _, v := range st.sliceCells(sl, int(sl.Len.V)) {
+			e := v.(StrV)
+			if !e.Conc {
+				unsupported("strings.Join of symbolic strings")
+			}
+			parts = append(parts, e.S)
+		}
+		return conStr(strings.Join(parts, sep.S))
+	}
 	in["strings.ToLower"] = func(ex *Exec, st *State, args []Value, site ssa.CallInstruction) Value {
 		s := args[0].(StrV)
 		if s.Conc {
